@@ -52,6 +52,9 @@ type WTScen struct {
 	WFailOnce bool   `json:"wfailOnce,omitempty"`
 	// rt: a second connection, written by its own task, that shares the buffer pool with the first
 	Peer []WTMsgOp `json:"peer,omitempty"`
+	// rt: messages with Path "SharedPrepared" are one PreparedMessage object (SharedLen bytes) used by both
+	// connections' writer tasks (a broadcast)
+	SharedLen int `json:"sharedLen,omitempty"`
 }
 
 type WTMsgOp struct {
@@ -148,6 +151,9 @@ type wtFam struct {
 	wErr2      []string
 	writer2Run bool
 	wOK        []bool // per message of the first connection: the write call returned nil
+	sharedPM   *webtrans.PreparedMessage
+	sharedData []byte
+	sharedBin  bool
 }
 
 func init() {
@@ -219,6 +225,21 @@ func (f *wtFam) setup(w *World) {
 	if sc.Pool {
 		pool = &simPool{}
 	}
+	for _, m := range append(append([]WTMsgOp(nil), sc.Msgs...), sc.Peer...) {
+		if m.Path == "SharedPrepared" && f.sharedPM == nil {
+			mt := webtrans.TextMessage
+			if m.Binary {
+				mt = webtrans.BinaryMessage
+			}
+			f.sharedBin = m.Binary
+			f.sharedData = wtPayload(5000, sc.SharedLen)
+			pm, err := webtrans.NewPreparedMessage(mt, f.sharedData)
+			if err != nil {
+				panic("sim: NewPreparedMessage: " + err.Error())
+			}
+			f.sharedPM = pm
+		}
+	}
 	wconn := webtrans.NewConn(f.sess, wstream, sc.WriterSrv, sc.ReadBuf, sc.WriteBuf, pool, nil, nil)
 	rconn := webtrans.NewConn(f.sess, rstream, sc.ReaderSrv, sc.ReadBuf, sc.WriteBuf, nil, nil, nil)
 	if sc.ReadLimit > 0 {
@@ -232,6 +253,9 @@ func (f *wtFam) setup(w *World) {
 					simrt.Sleep(time.Duration(sc.LatencyMs) * time.Millisecond)
 				}
 				data := wtPayload(i+1, m.Len)
+				if m.Path == "SharedPrepared" {
+					data, m.Binary = f.sharedData, f.sharedBin
+				}
 				f.written = append(f.written, ref.WTMsg{Binary: m.Binary, Data: data})
 				err := f.writeOne(wconn, m, data)
 				f.wOK = append(f.wOK, err == nil)
@@ -270,6 +294,9 @@ func (f *wtFam) setup(w *World) {
 			defer func() { f.writer2Run = false }()
 			for i, m := range sc.Peer {
 				data := wtPayload(1000+i, m.Len)
+				if m.Path == "SharedPrepared" {
+					data, m.Binary = f.sharedData, f.sharedBin
+				}
 				f.written2 = append(f.written2, ref.WTMsg{Binary: m.Binary, Data: data})
 				if err := f.writeOne(conn2, m, data); err != nil {
 					f.wErr2 = append(f.wErr2, fmt.Sprintf("peer message %d (%s, %d bytes): %v", i, m.Path, m.Len, err))
@@ -318,6 +345,8 @@ func (f *wtFam) writeOne(c *webtrans.Conn, m WTMsgOp, data []byte) error {
 	switch m.Path {
 	case "WriteMessage":
 		return c.WriteMessage(mt, data)
+	case "SharedPrepared":
+		return c.WritePreparedMessage(f.sharedPM)
 	case "Prepared":
 		pm, err := webtrans.NewPreparedMessage(mt, data)
 		if err != nil {
@@ -771,7 +800,16 @@ func (f *wtFam) totality(l *vlist, sc *WTScen) {
 			}
 		}
 	}
-	// EOF inside a header or payload must surface as an error, and errors are sticky
+	// EOF inside a header or payload must surface as an error, and errors are sticky: what a message reader
+	// reported is what every later NextReader reports
+	if n := len(f.got); n > 0 && f.got[n-1].Err != "" && !strings.HasPrefix(f.got[n-1].Err, "harness:") {
+		for _, e := range f.nextErr {
+			if e != f.got[n-1].Err {
+				l.add("errors-are-sticky", "after-message-read-error", fmt.Sprintf("reading message %d failed with %q but a later NextReader returned %q", n-1, f.got[n-1].Err, e))
+				break
+			}
+		}
+	}
 	if len(f.nextErr) > 1 {
 		for _, e := range f.nextErr[1:] {
 			if e != f.nextErr[0] {
@@ -898,6 +936,17 @@ func GenWT(prop string, seed uint64, thorough bool) *Scenario {
 					}
 				}
 				ws.Peer = append(ws.Peer, m)
+			}
+			if g.p(0.5) {
+				// a broadcast: one prepared message object, first thing on both connections (its frame for a
+				// client-role connection is built on first use - by whichever writer gets there first)
+				ws.SharedLen = g.pick(0, 10, 300, 5000, 70000)
+				sh := WTMsgOp{Binary: g.p(0.5), Len: ws.SharedLen, Path: "SharedPrepared"}
+				ws.Msgs = append([]WTMsgOp{sh}, ws.Msgs...)
+				ws.Peer = append([]WTMsgOp{sh}, ws.Peer...)
+				if g.p(0.7) {
+					ws.WriterSrv = false
+				}
 			}
 		case prop == "C14" && g.p(0.2):
 			// the writer's stream fails somewhere inside the frames (enumerated by the run index), later writes follow
